@@ -15,6 +15,7 @@ import itertools
 
 from mc import alpha
 from mc.env import guard
+from mc.state import seq
 from mc import pasts
 from tracklib.core.track import Track
 from tracklib.core.obs import Obs
@@ -54,7 +55,8 @@ WIDTHS = [1, 1.5, 2, 3]
 WINDOW_WIDTHS = [1, 1.25, 1.5, 2, 2.5, 3, 4, 5.5, 10]
 ENUM_MAXLEN = {"quick": 6, "thorough": 8}
 ENUM_MAXLEN_KERNEL = {"quick": 5, "thorough": 6}
-PATHS = ["feature", "same-kernel-object-again", "filter_seq-xyz", "filter_seq-feature", "smooth", "filter_seq-xyz-on-a-track-with-a-past"]
+PATHS = ["feature", "same-kernel-object-again", "filter_seq-xyz", "filter_seq-feature", "smooth", "filter_seq-xyz-on-a-track-with-a-past",
+         "feature-after-a-call-with-the-other-boundary-setting"]
 PASTS_XYZ = ["rebuilt-from-featured-observations", "sum-of-halves-first-half-featured", "featured-then-removed", "extracted",
              "sum-of-halves-both-featured", "copied"]
 
@@ -131,8 +133,8 @@ def window_of(spec):
         st, w = guard(lambda: make_kernel(spec, False).toSlidingWindow())
         if st != "ok":
             _WINDOWS[key] = (None, "%s: %s" % (st, w))
-        elif not isinstance(w, list) or len(w) == 0 or not all(_finite(v) for v in w):
-            _WINDOWS[key] = (None, "not a list of finite numbers: %r" % (w if not isinstance(w, list) else w[:8],))
+        elif seq(w) is None or len(w) == 0 or not all(_finite(v) for v in seq(w)):
+            _WINDOWS[key] = (None, "not a sequence of finite numbers: %r" % (repr(w)[:80],))
         else:
             _WINDOWS[key] = ([float(v) for v in w], None)
     return _WINDOWS[key]
@@ -202,8 +204,9 @@ def _track(variant, n, xs=None, ys=None, zs=None, feat=None):
 
 def _vec(v, n):
     """Validated copy of an output vector, or a message."""
-    if not isinstance(v, list) or len(v) != n:
-        return "not a list of %d values: %r" % (n, v if not isinstance(v, list) else len(v))
+    if seq(v) is None or len(v) != n:
+        return "not a sequence of %d values: %r" % (n, repr(v)[:80] if seq(v) is None else len(v))
+    v = seq(v)
     for e in v:
         if not _isnum(e):
             return "holds %r" % (e,)
@@ -261,6 +264,12 @@ def run_paths(variant, spec, boundary, sig):
         if st5 == "ok" and t5.size() == n:
             k5 = make_kernel(spec, boundary)
             res[PATHS[5]] = _xyz(guard(lambda: flt.filter_seq(t5, k5, flt.FILTER_XYZ)), None, n, sig, rev, neg)
+    # ---- the operator again, right after a call made with the OTHER boundary setting (another kernel object, another track):
+    # the setting belongs to the kernel that is handed over, not to the process ------------------------------------------
+    t6 = _track(variant, n, feat=rev)
+    k6 = make_kernel({"type": "GaussianKernel", "width": 1}, not boundary)
+    guard(lambda: t6.operate(Operator.FILTER, "s", k6, "o"))
+    res[PATHS[6]] = run_feature(variant, spec, boundary, sig, again=False)[0]
     # ---- Track.smooth = Gaussian kernel that does not filter the boundaries ----------------------------
     if spec["type"] == "GaussianKernel" and not boundary:
         t4 = _track(variant, n, xs=sig, ys=rev, zs=neg)
@@ -431,10 +440,10 @@ def check_window(spec, ctx):
     if st != "ok":
         ctx.violation("toSlidingWindow/%s" % ("raises" if st == "exc" else "does-not-return"), case, w)
         return
-    if not isinstance(w, list) or not w or not all(_finite(v) for v in w):
+    if seq(w) is None or len(w) == 0 or not all(_finite(v) for v in seq(w)):
         ctx.violation("toSlidingWindow/malformed-result", case, repr(w)[:200])
         return
-    w = [float(v) for v in w]
+    w = [float(v) for v in seq(w)]
     n = len(w)
     ctx.outcome(("w", spec["type"], n, w[0] == 0))
     if n % 2 == 0:
